@@ -306,8 +306,8 @@ func (c *checker) shrinkAndWrite(v Violation, class string, raceLog string, chun
 	best := v
 	best.Class = class
 	bestLog := raceLog
-	deadline := time.Now().Add(90 * time.Second)
-	budget := 600
+	deadline := time.Now().Add(45 * time.Second)
+	budget := 400
 	tried := 0
 	// the unshrunk tape must itself replay in a fresh process: alone, or - when
 	// the run was not the first of its worker process and needs the package
@@ -377,7 +377,7 @@ func (c *checker) shrinkAndWrite(v Violation, class string, raceLog string, chun
 	rf.Violation = best
 	rf.RaceReport = firstRaceReport(bestLog)
 	name := fmt.Sprintf("%s-%d-%s.json", c.cfg.ID, v.Seed, sanitize(class))
-	path := filepath.Join(verifDir, "replays", name)
+	path := filepath.Join(replayDir(), name)
 	writeJSON(path, rf)
 	return path
 }
